@@ -3,6 +3,7 @@ import I18n.Lemmas.CharsetCharmaps
 import I18n.Lemmas.CharsetIconv
 import I18n.Lemmas.CharsetCheckTags
 import I18n.Lemmas.CharsetEucTw
+import I18n.Lemmas.CharsetEucTwReal
 /-!
 # C20 — charset names are classified consistently and the extra codecs are lossless
 
@@ -20,6 +21,8 @@ it `not-python`, so the tool calls it non-portable — `portable_law_refuted` / 
 -/
 namespace I18n.Props.C20
 open I18n I18n.Charset I18n.Charset.Tables I18n.Generated.Charset
+open I18n.Charset.Cns (ignored_pin plane1_forms_agree dup_fact)
+open I18n.Generated.CharsetCns (plane1 plane1two ignoredRanges planesAccepted)
 open I18n.Spec.Charset (gettextCharsets asciiRepertoire gettextLists InjectiveOnDefined ValidSpan canonical)
 
 set_option maxRecDepth 100000
@@ -317,6 +320,110 @@ theorem euctw_roundtrip_refuted (cns : CnsTable) (inv : CnsInverse) (h : AgreesW
     (eucTwDecode cns [0x8E, 0xA1, 0xA4, 0xA1] = .ok [0xFF10] ∧ eucTwEncode inv [0xFF10] = .ok [0xA4, 0xA1]) ∧
     (eucTwDecode cns [0x8E, 0xA3, 0xA1, 0xB8] = .ok [0x5344] ∧ eucTwEncode inv [0x5344] = .ok [0xA4, 0xBF]) ∧
     ¬ (∀ bs cs, eucTwDecode cns bs = .ok cs → eucTwEncode inv cs = .ok bs) := eucTw_roundtrip_refuted cns inv h
+
+/-! ## EUC-TW over the CNS 11643 tables of the system iconv
+
+`Generated.CharsetCns*` holds every answer of glibc's iconv: the 17 × 8836 units `r c` / `8E A0+p r c` (p = 1..16) and every
+character U+0080..U+10FFFF.  `cnsReal` / `invReal` read them; seven modules let the kernel pass over all of it
+(`Lemmas/CharsetCnsK1..K7`), `Lemmas/CharsetCns` turns the pass into statements about the two functions. -/
+
+/-- pins: the two-byte and the four-byte form of plane 1 share one table; iconv accepts units in planes 1–7 and 15 only; it drops
+    exactly the TAG characters; U+5344 stands twice; and the real tables agree with the witnesses `euctw_roundtrip_refuted` uses -/
+theorem euctw_tables_pin :
+    plane1two = plane1 ∧ planesAccepted = [1, 2, 3, 4, 5, 6, 7, 15] ∧ ignoredRanges = [(0xE0000, 0xE007F)] ∧
+    (cnsReal 3 0xA1 0xB8 = some 0x5344 ∧ cnsReal 1 0xA4 0xBF = some 0x5344 ∧ invReal 0x5344 = some (1, 0xA4, 0xBF)) ∧
+    AgreesWithIconv cnsReal invReal := by
+  refine ⟨plane1_forms_agree, by decide, ignored_pin.1, dup_fact, ⟨?_, ?_⟩⟩
+  · have : (eucTwDecodeFacts.all fun f => eucTwDecode cnsReal (toBytes f.1) == .ok [f.2]) = true := by decide +kernel
+    intro f hf
+    rw [List.all_eq_true] at this
+    simpa using this f hf
+  · have : (eucTwEncodeFacts.all fun f => eucTwEncode invReal [f.1] == .ok (toBytes f.2)) = true := by decide +kernel
+    intro f hf
+    rw [List.all_eq_true] at this
+    simpa using this f hf
+
+/-- **decoding is total**: every byte string yields a text of Unicode scalar values (so `outbuf[:n]` cannot raise: none is a
+    surrogate or above U+10FFFF), at most one character per byte — or an error whose offset lies inside the input -/
+theorem euctw_decode_total (bs : List UInt8) :
+    (∃ cs, eucTwDecodeReal bs = .ok cs ∧ cs.length ≤ bs.length ∧ ∀ c ∈ cs, isScalar c = true ∧ isTag c = false) ∨
+    (∃ s k, eucTwDecodeReal bs = .error (s, k) ∧ s < bs.length) := by
+  cases h : eucTwDecodeReal bs with
+  | ok cs =>
+    obtain ⟨h1, h2, _⟩ := decodeLoop_real_facts bs.length 0 0 bs cs h
+    exact .inl ⟨cs, rfl, h1, h2⟩
+  | error e =>
+    obtain ⟨s, k⟩ := e
+    exact .inr ⟨s, k, rfl, euctw_decode_error_position cnsReal bs s k h⟩
+
+/-- **encode(decode(b)) = b exactly when `b` has no redundant unit** — full strength over the real tables: the four-byte
+    form of plane 1 (`8E A1 r c`) and the one unit `8E A3 A1 B8` are the only obstacles -/
+theorem euctw_roundtrip (bs : List UInt8) (cs : List Nat) (h : eucTwDecodeReal bs = .ok cs) :
+    eucTwEncodeReal cs = .ok bs ↔ eucTwNoRedundant cnsReal bs.length bs = true := by
+  constructor
+  · intro henc
+    exact roundtrip_noRedundant bs.length 0 0 bs cs h henc
+  · intro hn
+    rw [← canonical_eq_noRedundant] at hn
+    exact eucTw_roundtrip cnsReal invReal bs cs h hn
+
+/-- **decode(encode(s)) = s — except that glibc drops TAG characters**: whatever the encoder accepts decodes to the text
+    without its TAG characters U+E0000..U+E007F (so to the text itself when it has none) -/
+theorem euctw_encode_decode (cs : List Nat) (bs : List UInt8) (h : eucTwEncodeReal cs = .ok bs) :
+    eucTwDecodeReal bs = .ok (cs.filter fun c => !isTag c) ∧
+    ((∀ c ∈ cs, isTag c = false) → eucTwDecodeReal bs = .ok cs) := by
+  have := encode_decode_loop cs bs.length 0 0 bs h (Nat.le_refl _)
+  refine ⟨this, fun hn => ?_⟩
+  rw [show eucTwDecodeReal bs = _ from this]
+  congr 1
+  rw [List.filter_eq_self]
+  intro c hc
+  simp [hn c hc]
+
+/-- … and the exception is real: `'a\U000E0041b'.encode('EUC-TW') == b'ab'` -/
+theorem euctw_encode_drops_tags :
+    eucTwEncodeReal [0x61, 0xE0041, 0x62] = .ok [0x61, 0x62] ∧ eucTwDecodeReal [0x61, 0x62] = .ok [0x61, 0x62] := by decide +kernel
+
+/-- **the encoder writes the short form**: whatever decodes is encodable, to no more bytes than were read, and the bytes
+    written decode to the same text (two bytes for plane 1, `A4 BF` for U+5344) -/
+theorem euctw_encode_short_form (bs : List UInt8) (cs : List Nat) (h : eucTwDecodeReal bs = .ok cs) :
+    ∃ bs', eucTwEncodeReal cs = .ok bs' ∧ bs'.length ≤ bs.length ∧ eucTwDecodeReal bs' = .ok cs ∧
+      eucTwNoRedundant cnsReal bs'.length bs' = true := by
+  obtain ⟨_, h2, bs', h3, h4⟩ := decodeLoop_real_facts bs.length 0 0 bs cs h
+  have hd := (euctw_encode_decode cs bs' h3).2 (fun c hc => (h2 c hc).2)
+  exact ⟨bs', h3, h4, hd, (euctw_roundtrip bs' cs hd).1 h3⟩
+
+/-- **the non-injective units, exactly**: a unit is canonical (the form the encoder writes for its character) iff it is not
+    redundant; and a decodable byte string shares its text with a *different* byte string free of redundant units iff it
+    contains a redundant unit itself.  Restricted to byte strings without redundant units the decoder is injective. -/
+theorem euctw_noninjective_exactly :
+    (∀ bs, (eucTwUnit cnsReal bs).canonical invReal = !(eucTwUnit cnsReal bs).redundant) ∧
+    (∀ bs cs, eucTwDecodeReal bs = .ok cs →
+      ((∃ bs', bs' ≠ bs ∧ eucTwDecodeReal bs' = .ok cs ∧ eucTwNoRedundant cnsReal bs'.length bs' = true) ↔
+        eucTwNoRedundant cnsReal bs.length bs = false)) ∧
+    (∀ bs bs' cs, eucTwDecodeReal bs = .ok cs → eucTwDecodeReal bs' = .ok cs →
+      eucTwNoRedundant cnsReal bs.length bs = true → eucTwNoRedundant cnsReal bs'.length bs' = true → bs = bs') := by
+  have hinj : ∀ bs bs' cs, eucTwDecodeReal bs = .ok cs → eucTwDecodeReal bs' = .ok cs →
+      eucTwNoRedundant cnsReal bs.length bs = true → eucTwNoRedundant cnsReal bs'.length bs' = true → bs = bs' := by
+    intro bs bs' cs h h' hn hn'
+    have e1 := (euctw_roundtrip bs cs h).2 hn
+    have e2 := (euctw_roundtrip bs' cs h').2 hn'
+    rw [e1] at e2
+    cases e2; rfl
+  refine ⟨unit_canonical_iff, ?_, hinj⟩
+  intro bs cs h
+  constructor
+  · rintro ⟨bs', hne, h', hn'⟩
+    cases hn : eucTwNoRedundant cnsReal bs.length bs
+    · rfl
+    · exact (hne (hinj bs' bs cs h' h hn' hn)).elim
+  · intro hn
+    obtain ⟨bs', h3, _, hd, hn'⟩ := euctw_encode_short_form bs cs h
+    refine ⟨bs', ?_, hd, hn'⟩
+    intro he
+    subst he
+    rw [hn] at hn'
+    cases hn'
 
 /-! ## The iconv binding: `_decode_dl` / `_encode_dl` over an abstract iconv -/
 
